@@ -92,7 +92,7 @@ pub fn check(a: &Analysis, aux: &mut Aux, t: &mut Tally) -> Vec<Violation> {
                     t.any("cookie-of-flow-never-observed");
                     continue;
                 }
-                Some(DataVerdict::Collision) => collision = true,
+                Some(DataVerdict::Collision) | Some(DataVerdict::CollisionValidated) => collision = true,
                 _ => {}
             }
             if ti.class == TcpClass::Data {
